@@ -18,7 +18,10 @@ BadRT(e) ==
   IF WellFormed(t, p) THEN
     IF e.encerr THEN {"C01.enc_error"}
     ELSE
-         T(~BodyConforms(t, p, e.bytes), "C02.layout")
+         \* (the prescribed image followed by exactly one more octet is the recorded SMGP Active_Test_Resp finding)
+         T(~BodyConforms(t, p, e.bytes),
+           IF Len(e.bytes) = Len(Image(t, p)) + 1 /\ Drop(Take(e.bytes, Len(e.bytes) - 1), 4) = Drop(Image(t, p), 4)
+             THEN "C02.layout.one_trailing_octet" ELSE "C02.layout")
     \cup T(~PrefixOK(t, e.bytes), "C02.length_prefix")
     \cup T(~PrefixOK(t, e.bytes), "C01.header_length")
     \cup (IF e.decerr THEN {"C01.dec_error"}
